@@ -631,6 +631,56 @@ func (v *view) expectedIncoming() metadata.MD {
 	return md
 }
 
+// incomingOK checks the handler's incoming metadata against what the caller
+// attached: for every key, the caller's values in their order, with the
+// credential's value for that key (if any) before or after them - the property
+// fixes no order between the two sources (grpc-go puts credentials first,
+// metadata.Join(caller, creds) puts them last). Extra keys are ignored.
+func (v *view) incomingOK(have metadata.MD) (bool, string) {
+	caller := kvToMD(v.r.OutMD)
+	creds := metadata.MD{}
+	if v.r.Creds != nil && !v.r.Creds.Fail {
+		for _, kv := range v.r.Creds.MD {
+			creds[kv.K] = []string{string(kv.V)} // a map: the last value of a key wins
+		}
+	}
+	keys := map[string]bool{}
+	for k := range caller {
+		keys[k] = true
+	}
+	for k := range creds {
+		keys[k] = true
+	}
+	var ks []string
+	for k := range keys {
+		ks = append(ks, k)
+	}
+	sort.Strings(ks)
+	eq := func(a, b []string) bool {
+		if len(a) != len(b) {
+			return false
+		}
+		for i := range a {
+			if a[i] != b[i] {
+				return false
+			}
+		}
+		return true
+	}
+	for _, k := range ks {
+		c, cr, h := caller[k], creds[k], have[k]
+		if len(c)+len(cr) == 0 {
+			continue
+		}
+		a := append(append([]string{}, c...), cr...)
+		b := append(append([]string{}, cr...), c...)
+		if !eq(h, a) && !eq(h, b) {
+			return false, fmt.Sprintf("key %q: caller attached %q, credentials %q, handler sees %q", k, c, cr, h)
+		}
+	}
+	return true, ""
+}
+
 func (v *view) expectedHeaders() metadata.MD {
 	md := metadata.MD{}
 	for _, ev := range v.hdrSets {
@@ -654,7 +704,7 @@ func (v *view) expectedTrailers() metadata.MD {
 func (v *view) oracleC03() {
 	// (i) request metadata reaches the handler
 	if v.hStart != nil {
-		if ok, why := mdContains(v.hStart.MD, v.expectedIncoming()); !ok {
+		if ok, why := v.incomingOK(v.hStart.MD); !ok {
 			v.fail("C03", "request-metadata", "handler's incoming metadata lacks or alters the caller's outgoing metadata: %s", why)
 		}
 	}
@@ -741,7 +791,9 @@ func (v *view) oracleC03() {
 			v.fail("C03", "headers-incomplete-via-Header", "Header() at seq %d (after first message: %v): %s", hv.Seq, after, why)
 		}
 		for i, o := range hv.OptH {
-			if ok, why := mdContains(o, expH); !ok && (after || afterOK) {
+			// the call-option targets are only required to be filled by the
+			// end of the call (grpc-go fills them when a stream finishes)
+			if ok, why := mdContains(o, expH); !ok && afterOK {
 				v.fail("C03", "headers-incomplete-via-option", "grpc.Header option #%d at seq %d: %s", i, hv.Seq, why)
 			}
 		}
@@ -1086,7 +1138,7 @@ func (v *view) oracleC10() {
 		v.fail("C10", "client-context-accessor", "ClientContext(handler ctx) is %s", f["clientctx"])
 	}
 	exp := v.expectedIncoming()
-	if ok, why := mdContains(v.hStart.MD, exp); !ok {
+	if ok, why := v.incomingOK(v.hStart.MD); !ok {
 		v.fail("C10", "incoming-metadata", "%s", why)
 	}
 	for k := range v.hStart.MD {
